@@ -662,6 +662,9 @@ def rexpr(e):
         return '$"' + "".join(s["v"] if s["k"] == "lit" else "{" + s["x"] + "}" for s in e["segs"]) + '"'
     if k == "probe":
         return 'Probe%s "%s" %s' % (e.get("pt", ""), e["tag"], rx(e["e"]))
+    if k == "if" and not e["t"]["stmts"] and e["e"].get("k") != "none" and not e["e"]["stmts"]:
+        # an if / else with plain branches in expression position, on one line
+        return "if %s then %s else %s" % (rexpr(e["c"]), rx(e["t"]["fin"]), rx(e["e"]["fin"]))
     raise ValueError("statement-level construct in expression position: " + k)
 
 
@@ -968,4 +971,37 @@ def kernels(start_id):
         node = lambda a, b: {"k": "ctor", "union": un, "case": cn, "arg": {"k": "tuple", "es": [a, b]}}
         tree = [leaf(5), node(leaf(1), leaf(2)), node(node(leaf(1), leaf(2)), node(leaf(3), leaf(4)))][shape]
         add([u], [f], {"stmts": [{"k": "let", "x": "tr", "e": tree}], "fin": {"k": "app", "f": fn, "args": [v("tr")]}})
+    # K9 if / else in expression position (operand, argument, element, field, piped value): only the taken branch is evaluated, at its place
+    def ife(c, i):
+        return {"k": "if", "c": _pb(T(10 * i), c), "t": {"stmts": [], "fin": _pi(T(10 * i + 1), 1)}, "e": {"stmts": [], "fin": _pi(T(10 * i + 2), 2)}}
+    for c1 in (True, False):
+        for c2 in (True, False):
+            add([], [], {"stmts": [], "fin": bop("+", ife(c1, 1), ife(c2, 2))})
+            add([], [], {"stmts": [], "fin": {"k": "tuple", "es": [ife(c1, 1), _pi(T(5), 5), ife(c2, 2)]}}, ("tup", (INT, INT, INT)))
+            add([], [], {"stmts": [], "fin": {"k": "slice", "es": [ife(c1, 1), ife(c2, 2)]}}, ("sl", INT))
+        f = {"name": "p%dinc" % pid[0], "params": ["a", "b"], "ptypes": [INT, INT], "rtype": INT,
+             "body": {"stmts": [{"k": "mark", "tag": T(9)}], "fin": bop("+", v("a"), v("b"))}}
+        add([], [f], {"stmts": [], "fin": {"k": "app", "f": f["name"], "args": [ife(c1, 1), _pi(T(6), 6)]}})
+        rn = "P%dIfRec" % pid[0]
+        r = {"k": "record", "name": rn, "fields": ["A", "B"], "ftypes": [INT, INT]}
+        add([r], [], {"stmts": [{"k": "let", "x": "r", "e": {"k": "rec", "name": rn, "fields": [{"n": "A", "e": ife(c1, 1)}, {"n": "B", "e": _pi(T(7), 7)}]}}],
+                      "fin": bop("+", {"k": "field", "e": v("r"), "n": "A"}, {"k": "field", "e": v("r"), "n": "B"})})
+        f2 = dict(f, name="p%dinc" % pid[0])
+        add([], [f2], {"stmts": [], "fin": {"k": "pipe", "a": ife(c1, 1), "b": {"k": "app", "f": f2["name"], "args": [num(3)]}}})
+    # K10 nested field access and a match on a constructor expression
+    rin, rout = "P%dIn" % pid[0], "P%dOut" % pid[0]
+    tin = {"k": "record", "name": rin, "fields": ["V", "w"], "ftypes": [INT, STR]}
+    tout = {"k": "record", "name": rout, "fields": ["I", "N"], "ftypes": [("rec", rin), INT]}
+    inner = {"k": "rec", "name": rin, "fields": [{"n": "V", "e": _pi(T(1), 4)}, {"n": "w", "e": {"k": "str", "v": "x"}}]}
+    add([tin, tout], [], {"stmts": [{"k": "let", "x": "o", "e": {"k": "rec", "name": rout, "fields": [{"n": "N", "e": _pi(T(2), 2)}, {"n": "I", "e": inner}]}}],
+                          "fin": bop("+", {"k": "field", "e": {"k": "field", "e": v("o"), "n": "I"}, "n": "V"}, {"k": "field", "e": v("o"), "n": "N"})})
+    for built in (0, 1):
+        un = "P%dME" % pid[0]
+        cases = [{"n": "P%dMA" % pid[0], "p": True}, {"n": "P%dMB" % pid[0], "p": False}]
+        u = {"k": "union", "name": un, "cases": cases, "ptypes": [INT, None]}
+        ctor = {"k": "ctor", "union": un, "case": cases[built]["n"], "arg": _pi(T(1), 4) if built == 0 else {"k": "none"}}
+        add([u], [], {"stmts": [], "fin": {"k": "umatch", "target": ctor,
+                                           "arms": [{"case": cases[0]["n"], "bind": "k", "body": {"stmts": [{"k": "mark", "tag": T(2)}], "fin": bop("+", v("k"), num(1))}},
+                                                    {"case": cases[1]["n"], "bind": "", "body": {"stmts": [{"k": "mark", "tag": T(3)}], "fin": num(0)}}],
+                                           "dflt": {"k": "none"}}})
     return progs
